@@ -103,6 +103,11 @@ def specPton (b : List Nat) (back : Res Value) : Bool :=
 def specMapped (a : List Nat) (back : Res Value) : Bool :=
   !(a.length == 4 && octets a) || restores back (.bytes (Ip.showV4 a))
 
+/-- the assumed law of the IPv6 text parameter at one address `g` (8 segments): what `Display`
+    prints is ASCII, is not (a prefix that parses as) an IPv4 address, and parses back to `g`. -/
+def v6ok (c : Ip.V6Text) (g : List Nat) : Bool :=
+  (c.show6 g).all (· < 128) && (Ip.readV4 (c.show6 g)).isNone && c.parse6 (c.show6 g) == some g
+
 /-! #### to_unix_timestamp / from_unix_timestamp -/
 
 /-- `from(to(t))` is `t` rounded down to the unit; in particular `t` itself iff `t` is a
@@ -121,6 +126,26 @@ def specUnixInv (n : Int) (there back : Res Value) : Bool :=
    | _ => true)
 
 /-! #### format_timestamp / parse_timestamp -/
+
+/-- the zone `format_timestamp` formats in: UTC without a `timezone` argument -/
+def zoneOfArg (c : Time.Chrono) : Option Value → Option Time.Zone
+  | none => some .utc
+  | some (.bytes b) => Time.parseZone c (Utf8.lossy b)
+  | some _ => none
+
+/-- `parse_timestamp` accepts its `timezone` argument (absent, or a name that resolves) -/
+def tzAccepted (c : Time.Chrono) (tz : Option Value) : Bool :=
+  tz.isNone || (zoneOfArg c tz).isSome
+
+/-- the assumed law of the chrono parameter at one point: formatting `t` in zone `z` with the
+    (valid, full-precision, offset-carrying) format `f` gives a text that `parse_from_str` maps
+    back to the same instant. -/
+def tsLaw (c : Time.Chrono) (z : Time.Zone) (t : Int) (f : List Nat) : Bool :=
+  match c.format z t f with
+  | some txt =>
+    c.validFormat f && Utf8.fixed txt &&
+      c.parseFixed txt f == some (t / 1000000000, (t % 1000000000).toNat)
+  | none => false
 
 def specTimestamp (t : Int) (back : Res Value) : Bool :=
   !Time.tsInRange t || restores back (.ts t)
